@@ -1,7 +1,7 @@
 package local
 
 import (
-	"bytes"
+	"io"
 
 	"github.com/buildbarn/bb-storage/pkg/blobstore/buffer"
 	"github.com/buildbarn/bb-storage/pkg/digest"
@@ -52,7 +52,7 @@ func (ib *inMemoryBlock) Put(sizeBytes int64) BlockPutWriter {
 	ib.writeOffsetBytes += int(sizeBytes)
 	return func(b buffer.Buffer) BlockPutFinalizer {
 		// Ingest data.
-		err := b.IntoWriter(bytes.NewBuffer(ib.data[offsetBytes:offsetBytes]))
+		err := b.IntoWriter(&inMemoryBlockWriter{data: ib.data[offsetBytes : offsetBytes+int(sizeBytes)]})
 		return func() (int64, error) {
 			return int64(offsetBytes), err
 		}
@@ -60,3 +60,21 @@ func (ib *inMemoryBlock) Put(sizeBytes int64) BlockPutWriter {
 }
 
 func (inMemoryBlock) Release() {}
+
+// inMemoryBlockWriter writes data into the space that was allocated
+// for a single object. Unlike bytes.Buffer, it does not implement
+// io.ReaderFrom. bytes.Buffer.ReadFrom() reallocates its backing array
+// if fewer than bytes.MinRead bytes of capacity remain, which would
+// cause data to be written into a copy, instead of the block itself.
+type inMemoryBlockWriter struct {
+	data []byte
+}
+
+func (w *inMemoryBlockWriter) Write(p []byte) (int, error) {
+	if len(p) > len(w.data) {
+		return 0, io.ErrShortWrite
+	}
+	n := copy(w.data, p)
+	w.data = w.data[n:]
+	return n, nil
+}
